@@ -3,6 +3,8 @@ package checks
 import (
 	"encoding/json"
 	"fmt"
+	"github.com/inbucket/inbucket/v3/pkg/extension"
+	"github.com/inbucket/inbucket/v3/pkg/extension/event"
 	"math"
 	"math/big"
 	"sort"
@@ -17,11 +19,12 @@ import (
 // C06 — no message larger than the configured maximum is ever accepted or stored.
 
 type c06Case struct {
-	Limit   int    `json:"limit"`
-	Size    int    `json:"size"` // LF-normalised size of the data
-	Declare string `json:"declare"`
-	Backend string `json:"backend"`
-	Discard bool   `json:"discard,omitempty"` // the recipient's domain is not stored (accepted, then dropped): the limit applies all the same
+	Limit    int    `json:"limit"`
+	Size     int    `json:"size"` // LF-normalised size of the data
+	Declare  string `json:"declare"`
+	Backend  string `json:"backend"`
+	ExtAllow bool   `json:"ext_allow,omitempty"` // an extension answers "allow" to every MAIL and RCPT: that overrides the domain rules, never the size limit
+	Discard  bool   `json:"discard,omitempty"`   // the recipient's domain is not stored (accepted, then dropped): the limit applies all the same
 }
 
 // c06Body builds data whose LF-normalised form has exactly n bytes (lines of ≤50 chars).
@@ -46,7 +49,15 @@ func c06Exec(c *fw.Ctx, cas c06Case) (nontrivial bool) {
 	if cas.Discard {
 		smtp.DefaultStore = false
 	}
-	s := sys.New(sys.Spec{Store: sys.StoreSpec{Backend: cas.Backend}, SMTP: smtp, NoHub: true})
+	spec := sys.Spec{Store: sys.StoreSpec{Backend: cas.Backend}, SMTP: smtp, NoHub: true}
+	if cas.ExtAllow {
+		spec.PreLua = func(h *extension.Host) {
+			allow := func(event.SMTPSession) *event.SMTPResponse { return &event.SMTPResponse{Action: event.ActionAllow} }
+			h.Events.BeforeMailFromAccepted.AddListener("allow-all", allow)
+			h.Events.BeforeRcptToAccepted.AddListener("allow-all", allow)
+		}
+	}
+	s := sys.New(spec)
 	defer s.Close()
 	k := s.DialSMTP()
 	d := &sys.SMTPDriver{K: k}
@@ -192,11 +203,11 @@ func c06Run(c *fw.Ctx) {
 					if !c.Mine(n) {
 						continue
 					}
-					for _, discard := range []bool{false, true} {
-						if discard && be == "file" {
-							continue // nothing reaches the store in this configuration: one back-end is enough
+					for _, variant := range []string{"", "discard", "ext-allow"} {
+						if variant != "" && be == "file" {
+							continue // these variants do not depend on the back-end
 						}
-						cas := c06Case{Limit: L, Size: sz, Declare: decl, Backend: be, Discard: discard}
+						cas := c06Case{Limit: L, Size: sz, Declare: decl, Backend: be, Discard: variant == "discard", ExtAllow: variant == "ext-allow"}
 						if !c.Begin(func() any { return cas }) {
 							continue
 						}
